@@ -146,9 +146,9 @@ Theorem C19_linker_tables (st it ii : bool) (l : flinker) (ix : fmodel -> pindex
 Proof. exact (linker_tables_full st it ii l ix). Qed.
 Print Assumptions C19_linker_tables.
 
-(* without the name guard (submodel keys are dict keys, hence distinct): exactly what is returned — the entry under the
-   linker's name holds the table of the submodel keyed like the linker if there is one (the linker's own table is lost),
-   else the linker's; the other submodels follow in order under their keys *)
+(* the function linker_to_dataframes by itself, for an arbitrary object (e.g. a linker whose `name` was reassigned after
+   construction): the entry under the linker's name holds the table of the submodel keyed like the linker if there is one,
+   else the linker's; the other submodels follow in order under their keys.  The constructor excludes the first case *)
 Theorem C19_linker_tables_general (st it ii : bool) (tab : fmodel -> table) (l : flinker) :
   NoDup (map fst (lsubs l)) ->
   model_to_table st it ii (lmodel l) = TOk (tab (lmodel l)) ->
@@ -159,14 +159,28 @@ Theorem C19_linker_tables_general (st it ii : bool) (tab : fmodel -> table) (l :
 Proof. exact (linker_to_tables_general st it ii tab l). Qed.
 Print Assumptions C19_linker_tables_general.
 
-(* a submodel keyed like the linker (the default name is '_'): the linker's own table is overwritten — as many tables as
-   submodels, none of them the linker's *)
-Theorem C19_linker_name_clash_refuted :
-  exists l ts, NoDup (map fst (lsubs l)) /\ linker_to_tables true true false l = TOk ts /\
-    length ts = length (lsubs l) /\
-    forall t, model_to_table true true false (lmodel l) = TOk t -> ~ In (lname l, t) ts.
-Proof. exact linker_name_clash_refuted. Qed.
-Print Assumptions C19_linker_name_clash_refuted.
+(* BaseLinker.__init__ refuses a name that is also the identifier of a submodel (f5ef8bd) and otherwise builds the linker *)
+Theorem C19_linker_constructor (name : cell) (core : fmodel) (subs : list (cell * fmodel)) :
+  (In name (map fst subs) -> linker_construct name core subs = TErr DuplicateNameError) /\
+  (~ In name (map fst subs) -> linker_construct name core subs = TOk (mkLinker name core subs)).
+Proof. exact (linker_construct_spec name core subs). Qed.
+Print Assumptions C19_linker_constructor.
+
+(* hence for EVERY linker the constructor returns (submodel identifiers are dict keys, so distinct): one table for the
+   linker under its name and one per submodel under its identifier — number of submodels + 1 tables, none lost *)
+Theorem C19_linker_tables_of_constructed (st it ii : bool) (name : cell) (core : fmodel) (subs : list (cell * fmodel))
+        (l : flinker) (ix : fmodel -> pindex) :
+  linker_construct name core subs = TOk l ->
+  NoDup (map fst subs) ->
+  (forall m, m = core \/ In m (map snd subs) ->
+             wf_model m (length (splabels (fspan m))) /\ pd_index (fspan m) = Some (ix m)) ->
+  linker_to_tables st it ii l
+  = TOk ((name, mkTable (ix core) (export_cols st it ii core))
+         :: map (fun km => (fst km, mkTable (ix (snd km)) (export_cols st it ii (snd km)))) subs)
+  /\ S (length subs) = length ((name, mkTable (ix core) (export_cols st it ii core))
+         :: map (fun km => (fst km, mkTable (ix (snd km)) (export_cols st it ii (snd km)))) subs).
+Proof. exact (linker_tables_constructed st it ii name core subs l ix). Qed.
+Print Assumptions C19_linker_tables_of_constructed.
 
 (* ================= from_dataframe after to_dataframe ================= *)
 
@@ -376,11 +390,11 @@ Print Assumptions C19_span_kind_changes.
 (* ================= symbols_to_dataframe / dataframe_to_symbols ================= *)
 
 (* every symbol list — any length, every Type, every optional field None or not, lags = 0 kept apart from lags = None —
-   comes back unchanged.  Guard (sym_wf, spelled out): every lag / lead is None or an int64, and a lags (leads) column that
-   holds a None holds only integers of magnitude <= 2^53 *)
+   comes back unchanged.  Guard (sym_wf, spelled out): every lag / lead is None or an integer of ANY size (no text index),
+   and a lags (leads) column that holds a None holds only integers of magnitude <= 2^53 *)
 Theorem C19_symbols_roundtrip (ss : list symbol) :
   (let ok (os : list (option pidx)) :=
-     forallb (fun o => match o with None => true | Some (IInt z) => in_int64 z | Some (IStr _) => false end) os
+     forallb (fun o => match o with None => true | Some (IInt _) => true | Some (IStr _) => false end) os
      && (negb (existsb (fun o => match o with None => true | Some _ => false end) os)
          || forallb (fun o => match o with Some (IInt z) => Z.abs z <=? 9007199254740992 | _ => true end) os) in
    ok (map slags ss) && ok (map sleads ss)) = true ->
@@ -414,7 +428,7 @@ Proof. exact (symbols_to_table_shape s r). Qed.
 Print Assumptions C19_symbols_table_shape.
 
 (* dataframe_to_symbols of ANY table either returns or raises KeyError (a field column is missing), TypeError (an extra
-   column; a lag that is text or too big), ValueError (not a Type value) or OverflowError (infinite lag) — nothing else.  Which
+   column; a lag that is a tuple), ValueError (not a Type value; a lag that is text) or OverflowError (infinite lag) — nothing else.  Which
    one comes first follows the loop body (first row): C19_dataframe_to_symbols_error_order *)
 Theorem C19_dataframe_to_symbols_errors (t : table) (e : exn) :
   table_to_symbols t = TErr e ->
@@ -435,7 +449,7 @@ Theorem C19_dataframe_to_symbols_error_order :
   table_to_symbols (mkTable ix (firstn 5 (base 99))) = TErr ValueError /\
   table_to_symbols (mkTable ix (firstn 5 (base 2))) = TErr KeyError /\
   table_to_symbols (mkTable ix (tl (tl (base 2)) ++ [col "extra" PInt64 (CInt 1)])) = TErr KeyError /\
-  table_to_symbols (mkTable ix ([col "lags" PStrDt (CStr "a"); col "extra" PInt64 (CInt 1)] ++ base 2)) = TErr TypeError.
+  table_to_symbols (mkTable ix ([col "lags" PStrDt (CStr "a"); col "extra" PInt64 (CInt 1)] ++ base 2)) = TErr ValueError.
 Proof. exact table_to_symbols_error_order. Qed.
 Print Assumptions C19_dataframe_to_symbols_error_order.
 
@@ -452,8 +466,11 @@ Theorem C19_symbols_roundtrip_rounding_refuted :
 Proof. exact symbols_roundtrip_rounding_refuted. Qed.
 Print Assumptions C19_symbols_roundtrip_rounding_refuted.
 
-(* ... and a lag / lead outside int64 makes the round trip raise TypeError *)
-Theorem C19_symbols_roundtrip_int64_refuted :
-  exists ss, tbind (symbols_to_table ss) table_to_symbols = TErr TypeError.
-Proof. exact symbols_roundtrip_int64_refuted. Qed.
-Print Assumptions C19_symbols_roundtrip_int64_refuted.
+(* lags / leads outside int64 are no exception any more (0a27206): a list in which every symbol has integer lags and leads,
+   of whatever size, comes back unchanged *)
+Theorem C19_symbols_roundtrip_any_integers (ss : list symbol) :
+  forallb (fun s => (match slags s with Some (IInt _) => true | _ => false end)
+                    && (match sleads s with Some (IInt _) => true | _ => false end)) ss = true ->
+  tbind (symbols_to_table ss) table_to_symbols = TOk ss.
+Proof. exact (symbols_roundtrip_all_int ss). Qed.
+Print Assumptions C19_symbols_roundtrip_any_integers.
